@@ -95,9 +95,32 @@ SHAPES = {
     'stop_async': (lambda: StopAsyncIteration('async exhausted'), dict(is_exception=True, subclassable=True)),
     'json_error': (lambda: __import__('json').JSONDecodeError('bad doc', 'x y', 1), dict(is_exception=True, subclassable=True)),
     'two_arg_init': (lambda: TwoArg('field', 'problem'), dict(is_exception=True, subclassable=True)),
+    # an exception that already carries the Fiddle context of an EARLIER failed build of another
+    # configuration (kept by the program and raised again): the path named for THIS failure must
+    # be the one in THIS configuration
+    'stale_proxy': (lambda: stale_proxy(), dict(is_exception=True, subclassable=True)),
 }
+
+
+def _stale_fail(x=None):
+  raise Plain('stale failure')
+
+
+_STALE = {}
+
+
+def stale_proxy():
+  return _STALE['e']
+
+
+def prepare_stale_proxy():
+  # outside any build (a nested build would be rejected)
+  try:
+    fdl.build(fdl.Config(graphs.node_fn(1, 0), p=[fdl.Config(_stale_fail, x=1)]))
+  except Plain as e:
+    _STALE['e'] = e
 QUICK_SHAPES = ['plain', 'custom_init', 'str_override', 'base_exception', 'unsubclassable', 'factory0',
-                'factory1', 'stop_iteration', 'json_error', 'two_arg_init']
+                'factory1', 'stop_iteration', 'json_error', 'two_arg_init', 'stale_proxy']
 
 
 def cases(tier, r):
@@ -192,6 +215,7 @@ def execute(case):
     return {'skip': f'baseline build raised {type(e).__name__}'}, None
   n = len(targets.LOG)
   order = [r_.fn_name for r_ in targets.LOG]
+  prepare_stale_proxy()
   runs = []
   r = random.Random(case['seed'] ^ 0xABC)
   points = list(range(n)) if n <= 8 else sorted(r.sample(range(n), 8))
@@ -213,7 +237,12 @@ def execute(case):
         rec['prefix'] = str(esc).startswith(str(orig))
       except Exception:
         rec['prefix'] = False
-      m = re.search(r' at <root>(.*?) with positional arguments: ', str(esc), flags=re.S) if esc is not orig else None
+      # the context of THIS failure is the last one in the message
+      ms = list(re.finditer(r' at <root>(.*?) with positional arguments: ', str(esc), flags=re.S)) \
+          if esc is not orig else []
+      if shape == 'stale_proxy' and len(ms) < 2:
+        ms = []                  # only the stale context: this failure was not annotated
+      m = ms[-1] if ms else None
       rec['decorated'] = m is not None
       if m is not None:
         try:
